@@ -11,11 +11,26 @@ def strings(alpha, maxlen):
         for t in itertools.product(alpha, repeat=n):
             yield "".join(t)
 
-# an argument is ("s", text) | (kind, value) with kind one of i d b f h x w t m (see ocaml/fmt_driver.ml); written kind+value
+# an argument is ("s", text) | (kind, value) with kind one of i d b f h x w t m (see ocaml/fmt_driver.ml); written kind+value;
+# ("v", k + hex) is an argument that has an operator<< AND (optionally) a different conversion to a string type (k = t p k e v a o)
 def warg(a):
     return "s" + hx(a[1]) if a[0] == "s" else "%s%s" % (a[0], a[1])
 def A(word):
     return (word[0], word[1:])
+def akind(word):
+    """the kind of an argument word: its first letter, two letters for the v kinds"""
+    return word[:2] if word[0] == "v" else word[0]
+# kinds whose stream text and conversion text differ or whose type is not std::string: t implicit operator std::string(),
+# p std::filesystem::path, k implicit operator const char*(), e explicit operator std::string(), v std::string_view,
+# a char[16], o streamable only
+DUALK = ["vt", "vp", "vk", "ve", "vv", "va", "vo"]
+DUALTXT = ["x", "", "a b", "a\"b\\c", "{}", "/var/log/my app.log"[:15]]
+def D(k, text):
+    return k + hx(text)
+# the kinds the driver passes to variadic calls in their real C++ types; the fillers of a three-argument call
+REALK = ["s", "i"] + DUALK
+def real_arg(k, text, num=7):
+    return "i%d" % num if k == "i" else D(k, text)
 def wargs(l):
     return ",".join(warg(a) for a in l) if l else "."
 def S(x):
@@ -89,14 +104,14 @@ def parse_case(case):
 class C08(Check):
     prop = "C08"
     vfiles = ["Properties/Properties_C08.v", "Extract/Extract_Fmt.v"]
-    cpp = dict(name="fmt", driver_src="harness/fmt_driver.cpp")
+    cpp = dict(name="fmt", driver_src="harness/fmt_driver.cpp", extra_srcs=["harness/fmt_dual_exc.cpp", "harness/fmt_dual_exc3.cpp", "harness/fmt_dual_args.cpp"])
     ocaml = dict(name="fmt", extracted="fmt_model.ml", glue=("glue_base.ml", "glue_z.ml"))
     corpus = "C08.txt"
     design_ref = "DESIGN.md section 6, C08 — format"
     technique = ("Coq proof over an executable model of formatter::str()/operator%/args(...) and make_string "
                  "(loop invariant relating the regex-iterator loop to the split-based formula; reuse of the proved string layer of C17) "
                  "+ extraction-based differential test against the C++")
-    level_text = ("Thirty theorems proved in Coq for ALL format strings (byte lists) and ALL argument lists over a Gallina model that "
+    level_text = ("Thirty-seven theorems proved in Coq for ALL format strings (byte lists) and ALL argument lists over a Gallina model that "
                   "follows formatter::str() statement by statement (regex iterator = next occurrence of '{}' in the format after the previous "
                   "match): the loop equals 'pieces of split \"{}\" fmt interleaved with the arguments' exactly when |args| = number of "
                   "left-to-right non-overlapping '{}' and raises otherwise (less / more), the pieces glue back to the format and contain no "
@@ -109,14 +124,20 @@ class C08(Check):
                   "nothing: reloc_chain); operator<< into the caller's stream is all or nothing (when str() raises the stream is "
                   "unchanged, a pending width still pending) and otherwise inserts the text as ONE item (padded as a whole to the pending "
                   "width/fill/adjustment, width consumed); the exception message is the concatenation of the rendered arguments (for "
-                  "arguments that leave the stream state alone: make_string shares one stream), and the model's decimal printer "
+                  "arguments that leave the stream state alone: make_string shares one stream) — of their STREAM texts: an argument that is "
+                  "also convertible to a string type carries both texts in the model (ADual shown conv) and the message / the formatted text "
+                  "is a function of the stream texts alone, the conversion text can be dropped or replaced at every position of a message of "
+                  "every length, raise(x) = raise(\"\", x) — and the model's decimal printer "
                   "round-trips. The model is tied to /repo by running the extracted model and the real "
                   "nitro::format / nitro::except::raise (ASan/UBSan build of the working tree) on the same exhaustive + random cases and "
                   "diffing; an oracle extracted from the spec judges every differing observation")
     level_note = ("trusted: Coq kernel, ExtrOcamlBasic extraction, OCaml compiler, the differential harness. PARTIAL: the 'stream "
                   "representation' of an argument is libstdc++'s operator<< into a stringstream; the model takes std::string arguments "
                   "byte for byte and renders long / bool / integer-valued double (|v| < 10^6) / double z+1/2 (|z| < 10^5) arguments, four "
-                  "user-defined types (hex, fixed+setprecision(2), setfill+left+setw, boolalpha — none restores the stream) and ten "
+                  "user-defined types (hex, fixed+setprecision(2), setfill+left+setw, boolalpha — none restores the stream), seven kinds of "
+                  "argument that are streamable and (six of them) convertible to a string type (implicit operator std::string() with a decorating "
+                  "operator<<, std::filesystem::path, implicit operator const char*(), explicit operator std::string(), std::string_view, "
+                  "char[16], streamable only) and ten "
                   "manipulators passed as arguments with small printers — those printers are compared with the real operator<< on a "
                   "fresh stream by the driver only (exercised, not proved); other argument types and iword/pword state are not covered; one non-classic global locale (custom "
                   "numpunct) is exercised with a model of its digit grouping (render_loc, exercised only). Exception messages: exception.hpp writes all arguments into ONE stringstream, so a state-changing "
@@ -137,14 +158,19 @@ class C08(Check):
             "sticky-sticky-sensitive triples, random sequences of 1..4 formatters; stream: operator<< of every format up to length 4 (5 "
             "thorough) x argument counts 0..k+1 into an ostringstream that already holds text, under eight pending width/fill/adjustment "
             "settings, followed by a sentinel item, observing the whole stream content (nothing of the formatter after a raise; one padded "
-            "item otherwise), plus random ones; every fmt case also streams into a stream with content and checks the same; exception messages with 1..8 state-neutral arguments. "
+            "item otherwise), plus random ones; every fmt case also streams into a stream with content and checks the same; exception messages with 1..8 state-neutral arguments; "
+            "conversions: seven kinds of argument whose type can be streamed and (six of them) converted to a string type with a different or "
+            "equal text x six payload texts, passed in their REAL C++ types to raise(...), raise<derived>(...), exception(...) and "
+            "formatter::args(...) / operator%: alone, after / before an empty string, every ordered pair of the nine real kinds "
+            "(std::string, long, the seven), and at each of the three positions of a three-argument call between std::string / convertible "
+            "fillers; what() is also compared inside the driver with an ostringstream the same arguments were written to; random ones. "
             "Each case starts by putting any per-thread formatting state back to the defaults through the public interface (a no-op on "
             "the current header), so a case line is judged and replayed on its own. "
             "A case is non-trivial when the format has at least one placeholder and at least one argument is supplied, or (exception "
-            "cases) when there are >= 2 arguments; distinct = distinct case line")
+            "cases) when there are >= 2 arguments or an argument of a convertible kind; distinct = distinct case line")
     modelled_note = ("modelled, not verified: std::regex / std::sregex_iterator search for the literal \\{\\} (modelled as next "
                      "occurrence of the two bytes after the previous match), std::stringstream operator<< for std::string (verbatim), "
-                     "long, bool, integer-valued double, double z+1/2, four state-changing user types and ten manipulators (small printers for a FRESH "
+                     "long, bool, integer-valued double, double z+1/2, four state-changing user types, seven streamable-and-convertible kinds (std::filesystem::path's operator<< = std::quoted) and ten manipulators (small printers for a FRESH "
                      "stream; exercised by the driver only), one fresh stringstream per argument in operator% (tied by the sticky/seq cases), "
                      "std::string::append, operator<<(ostream&, std::string) padding to the pending width and resetting it (pad/insert_str), "
                      "std::runtime_error storing the message")
@@ -416,6 +442,54 @@ class C08(Check):
                 yield "loc exc " + " ".join(warg(a) for a in args[:8]), "loc-exc"
             else:
                 yield "loc excf " + " ".join([hx(f)] + chain_mixed(args[:n], rng)), "loc-excf"
+        # arguments that can be STREAMED and also CONVERTED to a string type, the two texts differing (or the type simply not
+        # being std::string): the text used must be the stream text — in a message (raise, raise<E>, direct construction; in
+        # their real types) and in a format (% and args(...)) — at arity 1..3, at every position
+        for k in DUALK:
+            for t in DUALTXT:
+                yield "exc " + D(k, t), "exc-dual"                      # alone
+                yield "exc s- " + D(k, t), "exc-dual"                   # after an empty first argument: the same text
+                yield "exc %s s-" % D(k, t), "exc-dual"
+                yield fmt_case("{}", ["p:" + D(k, t)]), "fmt-dual"
+                yield fmt_case("[{}]", ["a:" + D(k, t)]), "fmt-dual"
+        yield "exc s78", "exc-dual"
+        yield "exc i7", "exc-dual"
+        for k1 in REALK:
+            for k2 in REALK:
+                if k1[0] != "v" and k2[0] != "v":
+                    continue
+                t1, t2 = rng.choice(DUALTXT), rng.choice(DUALTXT)
+                yield "exc %s %s" % (real_arg(k1, t1), real_arg(k2, t2)), "exc-dual"
+                yield "exc %s %s" % (real_arg(k1, "l"), real_arg(k2, "r", -3)), "exc-dual"
+                yield fmt_case("{}={}", ["a:%s,%s" % (real_arg(k1, t1), real_arg(k2, t2))]), "fmt-dual"
+                yield fmt_case("{}{}", ["p:" + real_arg(k1, t2), "p:" + real_arg(k2, t1)]), "fmt-dual"
+        FILL = ["s", "vt"]
+        for pos in range(3):
+            for k in DUALK:
+                for f1 in FILL:
+                    for f2 in FILL:
+                        t = rng.choice(DUALTXT)
+                        args = [real_arg(f1, "p", 1), real_arg(f2, "q", 22)]
+                        args.insert(pos, D(k, t))
+                        yield "exc " + " ".join(args), "exc-dual"
+                        yield fmt_case("{}|{}|{}", ["a:" + ",".join(args)]), "fmt-dual"
+                        if f1 == "s":
+                            yield fmt_case("{} {} {}", chain_mixed([A(x) for x in args], rng)), "fmt-dual"
+        R = 300 if tier == "quick" else 5000
+        for _ in range(R):
+            n = rng.randint(1, 3)
+            pos = rng.randrange(n)
+            args = [real_arg(rng.choice(FILL), "".join(rng.choice("ab \"\\{}") for _ in range(rng.randint(0, 4))), rng.choice(INTS)) for _ in range(n)]
+            args[pos] = D(rng.choice(DUALK), "".join(rng.choice("ab \"\\{}/.") for _ in range(rng.randint(0, 8))))
+            r = rng.random()
+            if r < 0.5:
+                yield "exc " + " ".join(args), "exc-dual-rand"
+            elif r < 0.6:       # more arguments than the real-type routes take: through the streaming wrapper
+                extra = [D(rng.choice(DUALK), rng.choice(DUALTXT)) for _ in range(rng.randint(1, 4))]
+                yield "exc " + " ".join(args + extra), "exc-dual-rand"
+            else:
+                f = " ".join(["{}"] * max(0, n + rng.choice([0, 0, 0, 1, -1])))
+                yield fmt_case(f, chain_mixed([A(x) for x in args], rng) if rng.random() < 0.5 else ["a:" + ",".join(args)]), "fmt-dual-rand"
         # exception messages (arguments that leave the stream state alone: see the scope note in FormatModel.v)
         for n in range(1, 4 if tier == "quick" else 5):
             for t in itertools.product(["", "x", "{}", "a b"], repeat=n):
@@ -448,7 +522,7 @@ class C08(Check):
             return "{}" in f or n >= 1
         if kind == "rel":
             return True
-        return n >= 2
+        return n >= 2 or any(a[0] == "v" for _, l in ops for a in l)
 
     def signature(self, case, mobs, iobs):
         if case.startswith("loc "):
@@ -456,7 +530,7 @@ class C08(Check):
         kind, f, ops = parse_case(case)
         n = sum(len(a) for _, a in ops)
         flat = [a for _, l in ops for a in l]
-        kinds = "".join(sorted(set(a[0] for a in flat)))
+        kinds = "".join(sorted(set(akind(a) for a in flat)))
         if kind == "os":
             k = f.count("{}")
             ww = case.split()
@@ -478,7 +552,8 @@ class C08(Check):
                                            if a[0] in "hxwtm" and b[0] in "idbfs")))[:4]
             return (kind, case.count(" / "), iobs.split(" ")[0], min(k, 5) if k <= 5 else (6 if k < 64 else 7), min(len(f) // 16, 3) if len(f) < 64 else (4 if len(f) < 256 else 5), max(-2, min(2, n - k)), styles, kinds, braces_in_args,
                     f.startswith("{}"), f.endswith("{}"), "{}{}" in f, sticky_then)
-        return ("exc", iobs.split(" ")[0], min(n, 8), kinds)
+        dual_at = tuple(i for i, a in enumerate(flat) if a[0] == "v")[:3]
+        return ("exc", iobs.split(" ")[0], min(n, 8), kinds, dual_at)
 
     def shrink(self, case):
         if case.startswith("loc "):
@@ -561,6 +636,11 @@ def shrink_arg(e):
         if h != "-":
             for j in range(0, len(h), 2):
                 yield e[0] + ((h[:j] + h[j + 2:]) or "-")
+    elif e[0] == "v":
+        h = e[2:]
+        if h != "-":
+            for j in range(0, len(h), 2):
+                yield e[:2] + ((h[:j] + h[j + 2:]) or "-")
     else:
         yield "s-"
         if e[0] in "idfhxw" and len(e) > 2:
